@@ -89,6 +89,8 @@ class Kernel:
         self.tracing = False
         self._trace_cache = {}
         self.sched_sig = hashlib.sha256()
+        self.wall_offset = 0.0
+        self.clock_jumps = 0
         self.line_hook = None  # optional callable(rec, frame) for at(k) sweeps / probes
         self.max_threads = 1
         self.thread_excs = []
@@ -119,7 +121,15 @@ class Kernel:
 
     # ------------------------------------------------------------------ time
     def time(self):
-        return EPOCH + self.now / TICKS_PER_S
+        # wall clock = virtual time + whatever steps the scenario has injected (NTP correction, manual change, suspend);
+        # monotonic time, sleeps and timed waits are not affected by such steps
+        return EPOCH + self.now / TICKS_PER_S + self.wall_offset
+
+    def jump_clock(self, seconds):
+        """fault: the wall clock steps by `seconds` (forwards or backwards) at this instant."""
+        self.wall_offset += float(seconds)
+        self.clock_jumps += 1
+        self.ev("clock_jump", float(seconds))
 
     def after(self, ticks, fn, *args):
         """Schedule fn(*args) as a kernel event `ticks` from now.  Handlers must not block."""
